@@ -18,7 +18,7 @@ import (
 
 // C25: crash consistency of multi-database flushes.
 //
-//   pool|flag <flushIDKey hex> <batch size scale>
+//   pool|flag <flushIDKey hex> <batch size scale> [v]      (v: leveldb-like Batch.ValueSize, flag mode)
 //     ; O n            producer.OpenDB(db<n>)
 //     ; U n            SyncedPool.GetUnderlying(db<n>)          (flag: = O)
 //     ; P n k v        OpenDB(db<n>).Put(k, v)
@@ -44,9 +44,10 @@ type c25World struct {
 	log   []string
 	quiet bool
 	scale int
+	acctV bool // Batch.ValueSize like leveldb/pebble: len(value) per put, 1 per delete (flag mode only)
 }
 
-func c25Name(n string) string { return "db" + n }
+func c25Name(n string) string   { return "db" + n }
 func c25Num(name string) string { return strings.TrimPrefix(name, "db") }
 
 func (w *c25World) add(t string) {
@@ -101,19 +102,28 @@ type c25Batch struct {
 	kvdb.Batch
 	s      *c25Store
 	writes []string
+	sizeV  int
 }
 
 func (b *c25Batch) Put(k, v []byte) error {
 	b.writes = append(b.writes, vu.Hex(k)+"="+vu.Hex(v))
+	b.sizeV += len(v)
 	return b.Batch.Put(k, v)
 }
 func (b *c25Batch) Delete(k []byte) error {
 	b.writes = append(b.writes, vu.Hex(k)+"=~")
+	b.sizeV++
 	return b.Batch.Delete(k)
 }
 
-// ValueSize is scaled so that the IdealBatchSize split of Flushable.flush is reachable with small values.
-func (b *c25Batch) ValueSize() int { return b.Batch.ValueSize() * b.s.w.scale }
+// ValueSize is scaled so that the IdealBatchSize split of Flushable.flush is reachable with small
+// values.  With acctV it counts like the leveldb/pebble batches (a batch of empty values has size 0).
+func (b *c25Batch) ValueSize() int {
+	if b.s.w.acctV {
+		return b.sizeV * b.s.w.scale
+	}
+	return b.Batch.ValueSize() * b.s.w.scale
+}
 func (b *c25Batch) Write() error {
 	ws := strings.Join(b.writes, ",")
 	if ws == "" {
@@ -122,7 +132,7 @@ func (b *c25Batch) Write() error {
 	b.s.w.add("b:" + c25Num(b.s.name) + ":" + ws)
 	return b.Batch.Write()
 }
-func (b *c25Batch) Reset() { b.writes = nil; b.Batch.Reset() }
+func (b *c25Batch) Reset() { b.writes = nil; b.sizeV = 0; b.Batch.Reset() }
 
 func c25Dump(db kvdb.Store) string {
 	var parts []string
@@ -206,6 +216,10 @@ func c25Run(in []string) []string {
 		scale = 1
 	}
 	w := &c25World{dbs: map[string]kvdb.Store{}, scale: scale}
+	if len(header) > 3 && header[3] == "v" && mode == "flag" {
+		w.acctV = true
+		vu.Stat("flag_leveldb_like_batch_size")
+	}
 	var prod kvdb.FlushableDBProducer
 	var pool *flushable.SyncedPool
 	if mode == "pool" {
@@ -333,7 +347,7 @@ func c25Run(in []string) []string {
 
 // ---------------------------------------------------------------- generator
 
-var c25Keys = []string{"61", "62", "63", "6161", "6162", "7a"}
+var c25Keys = []string{"61", "62", "63", "6161", "6162", "7a", "-"}
 
 func c25Val(r *rand.Rand) string {
 	switch r.Intn(5) {
@@ -349,7 +363,42 @@ func c25Val(r *rand.Rand) string {
 	return vu.Hex(b)
 }
 
+// exhaustive small scope (thorough tier): every history of up to 4 operations over the alphabet
+// {put db0, put db1, delete db0, drop db0, drop db1, GetUnderlying db1, flush}, closed by a flush, in both modes
+func c25Exhaustive(emit func(...string)) {
+	alpha := [][]string{{"P", "0", "61", "31"}, {"P", "1", "61", "32"}, {"D", "0", "61"}, {"X", "0"}, {"X", "1"}, {"U", "1"}, {"F"}}
+	var rec func(mode string, depth int, cur [][]string)
+	rec = func(mode string, depth int, cur [][]string) {
+		if len(cur) > 0 {
+			in := []string{mode, "ff", "1"}
+			fl := 0
+			for _, o := range cur {
+				in = append(in, ";")
+				if o[0] == "F" {
+					fl++
+					in = append(in, "F", fmt.Sprintf("%02x", fl))
+				} else {
+					in = append(in, o...)
+				}
+			}
+			in = append(in, ";", "F", fmt.Sprintf("%02x", fl+1))
+			emit(in...)
+		}
+		if depth == 0 {
+			return
+		}
+		for _, o := range alpha {
+			rec(mode, depth-1, append(append([][]string{}, cur...), o))
+		}
+	}
+	rec("pool", 4, nil)
+	rec("flag", 4, nil)
+}
+
 func c25Gen(r *rand.Rand, n int, tier string, emit func(...string)) {
+	if tier == "thorough" {
+		c25Exhaustive(emit)
+	}
 	for i := 0; i < n; i++ {
 		mode := "pool"
 		if r.Intn(5) < 2 {
@@ -358,6 +407,9 @@ func c25Gen(r *rand.Rand, n int, tier string, emit func(...string)) {
 		fk := []string{"ff666c", "00", "6b"}[r.Intn(3)]
 		scale := []int{1, 1, 15000, 30000, 110000}[r.Intn(5)]
 		in := []string{mode, fk, strconv.Itoa(scale)}
+		if mode == "flag" && r.Intn(2) == 0 {
+			in = append(in, "v")
+		}
 		ndb := 2 + r.Intn(3)
 		nops := 5 + r.Intn(21)
 		if tier == "thorough" {
@@ -379,8 +431,13 @@ func c25Gen(r *rand.Rand, n int, tier string, emit func(...string)) {
 				in = append(in, "D", db, c25Keys[r.Intn(len(c25Keys))])
 			case x < 16:
 				var ws []string
+				flavour := r.Intn(6) // 0: empty values only, 1: the empty key with an empty value
 				for q := r.Intn(5); q >= 0; q-- {
-					if r.Intn(4) == 0 {
+					if flavour == 0 {
+						ws = append(ws, c25Keys[r.Intn(len(c25Keys))]+"=-")
+					} else if flavour == 1 {
+						ws = append(ws, "-=-")
+					} else if r.Intn(4) == 0 {
 						ws = append(ws, c25Keys[r.Intn(len(c25Keys))]+"=~")
 					} else {
 						ws = append(ws, c25Keys[r.Intn(len(c25Keys))]+"="+c25Val(r))
@@ -409,8 +466,12 @@ func c25Gen(r *rand.Rand, n int, tier string, emit func(...string)) {
 						id = ids[r.Intn(len(ids)-1)]
 					}
 				}
-				if len(ids) > 0 && ids[len(ids)-1] == id {
-					id = id + "00"
+				if len(ids) > 0 && ids[len(ids)-1] == id && !(mode == "flag" && r.Intn(3) == 0) {
+					id = id + "00" // consecutive equal IDs only in flag mode, rarely (weaker guarantee there)
+				}
+				if mode == "flag" && len(ids) > 0 && r.Intn(15) == 0 {
+					id = ids[len(ids)-1]
+					vu.Stat("flag_same_consecutive_id")
 				}
 				if id == "-00" {
 					id = "00"
